@@ -410,3 +410,27 @@ func (a *Analysis) isSectionEnd(in ssa.Instruction) (string, bool) {
 	}
 	return "", false
 }
+
+// exitPoint reports whether in is the point where a function's body is done on one return path:
+// the RunDefers of a block that ends in Return, or the Return of a block without RunDefers.
+// Facts about shared state are still intact there (the deferred unlock has not run yet).
+func exitPoint(in ssa.Instruction) (*ssa.Return, bool) {
+	b := in.Block()
+	ret, ok := b.Instrs[len(b.Instrs)-1].(*ssa.Return)
+	if !ok {
+		return nil, false
+	}
+	hasRD := false
+	for _, x := range b.Instrs {
+		if _, ok := x.(*ssa.RunDefers); ok {
+			hasRD = true
+		}
+	}
+	switch in.(type) {
+	case *ssa.RunDefers:
+		return ret, true
+	case *ssa.Return:
+		return ret, !hasRD
+	}
+	return nil, false
+}
